@@ -141,6 +141,7 @@ class _ParseTreeProcessor(parsimonious.NodeVisitor):
         self._current_line_number = 1  # Lines are numbered from one
         self._comment = ""
         self._comment_is_header = True
+        self._pending_attribute_line_number = None  # type: typing.Optional[int]
         self._strict = bool(strict)
         super().__init__()
 
@@ -158,7 +159,14 @@ class _ParseTreeProcessor(parsimonious.NodeVisitor):
         if self._comment_is_header:
             self._statement_stream_processor.on_header_comment(self._comment)
         else:
-            self._statement_stream_processor.on_attribute_comment(self._comment)
+            try:
+                self._statement_stream_processor.on_attribute_comment(self._comment)
+            except _error.Error as ex:
+                # The pending attribute is constructed at this point, which may be several lines below its statement.
+                ex.set_error_location_if_unknown(line=self._pending_attribute_line_number)
+                raise
+            finally:
+                self._pending_attribute_line_number = None
         self._comment_is_header = False
         self._comment = ""
 
@@ -193,18 +201,21 @@ class _ParseTreeProcessor(parsimonious.NodeVisitor):
         assert isinstance(exp, _expression.Any)
         self._flush_comment()
         self._statement_stream_processor.on_constant(constant_type, name, exp)
+        self._pending_attribute_line_number = self.current_line_number
 
     def visit_statement_field(self, _n: _Node, children: _Children) -> None:
         field_type, _space, name = children
         assert isinstance(field_type, _serializable.SerializableType) and isinstance(name, str) and name
         self._flush_comment()
         self._statement_stream_processor.on_field(field_type, name)
+        self._pending_attribute_line_number = self.current_line_number
 
     def visit_statement_padding_field(self, _n: _Node, children: _Children) -> None:
         void_type = children[0]
         assert isinstance(void_type, _serializable.VoidType)
         self._flush_comment()
         self._statement_stream_processor.on_padding_field(void_type)
+        self._pending_attribute_line_number = self.current_line_number
 
     def visit_statement_service_response_marker(self, _n: _Node, _c: _Children) -> None:
         self._flush_comment()
